@@ -480,4 +480,47 @@ theorem byteListArg_fits (d : Bytes) (hd : d.size < 4294967296) (r : Reader) (h 
   unfold u32
   omega
 
+/-! ## round trips -/
+
+theorem readByte_at {d : Bytes} {r : Reader} {b : UInt8} (hlt : r.offset < r.pkgEnd) (hb : d[r.offset]? = some b) :
+    readByte d r = .ok (some b, { r with offset := r.offset + 1 }) := by
+  unfold readByte
+  have : r.eof = false := by simp [Reader.eof]; omega
+  simp [this, hb]
+  rfl
+
+theorem parseNumLoop_roundtrip (d : Bytes) (v n : Nat) (base pe : Nat)
+    (henc : ∀ i, i < n → d[base + i]? = some (UInt8.ofNat ((v / 256 ^ i) % 256))) (hfit : base + n ≤ pe) :
+    ∀ m c, m + c = n →
+      parseNumLoop d m c (v % 256 ^ c) { offset := base + c, pkgEnd := pe } =
+        .ok ((v % 256 ^ n, PRes.ok), { offset := base + n, pkgEnd := pe }) := by
+  intro m
+  induction m with
+  | zero =>
+    intro c hc
+    simp at hc; subst hc
+    unfold parseNumLoop; rfl
+  | succ m ih =>
+    intro c hc
+    unfold parseNumLoop
+    have hb := henc c (by omega)
+    have hrd := readByte_at (d := d) (r := { offset := base + c, pkgEnd := pe }) (b := UInt8.ofNat ((v / 256 ^ c) % 256))
+      (by show base + c < pe; omega) hb
+    show (StateT.bind (readByte d) _) _ = _
+    simp only [StateT.bind, hrd]
+    show parseNumLoop d m (c + 1) _ _ = _
+    have hval : (v % 256 ^ c ||| (UInt8.ofNat ((v / 256 ^ c) % 256)).toNat <<< (8 * c)) = v % 256 ^ (c + 1) := by
+      have h1 : (UInt8.ofNat ((v / 256 ^ c) % 256)).toNat = (v / 256 ^ c) % 256 := by
+        simp [UInt8.toNat_ofNat']
+      rw [h1, Nat.or_comm]
+      have hlt : v % 256 ^ c < 2 ^ (8 * c) := by
+        have : (256 : Nat) ^ c = 2 ^ (8 * c) := by rw [Nat.pow_mul]
+        rw [← this]; exact Nat.mod_lt _ (Nat.pow_pos (by decide))
+      rw [← Nat.shiftLeft_add_eq_or_of_lt hlt, Nat.shiftLeft_eq, Nat.mod_pow_succ]
+      have : (2 : Nat) ^ (8 * c) = 256 ^ c := by rw [Nat.pow_mul]
+      rw [this, Nat.mul_comm, Nat.add_comm]
+    rw [hval]
+    have := ih (c + 1) (by omega)
+    simpa [Nat.add_assoc] using this
+
 end Firefly.AmlLex
